@@ -3,6 +3,7 @@
 from lib import *
 from mutate import *
 
+KERNEL_XCHECK = True
 RULE = ("byte strings = fixed specials (empty, blank-only, leading indented item, level jumps, binary, invalid UTF-8) + "
         "lines of 65533..65536 bytes + grammar-aware mutations of spelled random forests + raw alphabet strings; each run "
         "through every entry point (text/JSON/YAML/TOML/dry-run output by iterator and non-iterator routes, walk, and the "
@@ -53,6 +54,7 @@ def run(ck, rng):
     impl, crashes = run_impl(exe, cases)
     mcases = [c[1:] if c.startswith("m") else c for c in cases]
     model = run_model(mcases)
+    ck.xcheck_cases = (mcases, model)
     broken_corr = None
     for i, (op, modelled, doc) in enumerate(meta):
         mres = model[i].split("|")[-1].split(" ")[0]
